@@ -74,6 +74,12 @@ def operators(tier):
                 out.append(_t(f"export function f({T} a, {comp} s) -> {T} {{ return a {op} s; }}", f"{T} {op} {comp}", ["op", "scale"], small=True))
                 out.append(_t(f"export function f({T} a) -> {T} {{ return a {op} {lit(comp, 3)}; }}", f"{T} {op} literal", ["op", "scale"]))
             out.append(_t(f"export function f({comp} s, {T} a) -> {T} {{ return s * a; }}", f"{comp} * {T}", ["op", "scale"], small=True))
+            # component-wise %, && and || (a finding of C05/C09 until repaired in /repo: 62bf75b); float % is outside O1
+            for op in ("&&", "||"):
+                out.append(_t(f"export function f({T} a, {T} b) -> {T} {{ return a {op} b; }}", f"{T} {op} {T}", ["op", "logic"], small=True))
+            if comp == "int":
+                out.append(_t(f"export function f({T} a, {T} b) -> {T} {{ return a % b; }}", f"{T} % {T}", ["op", "mod"], small=True))
+                out.append(_t(f"export function f({T} a, {T} b, {T} c) -> {T} {{ return (a % b + c) && (a || b); }}", f"{T} % && || expression", ["op", "mod", "logic"], small=True))
             out.append(_t(f"export function f({T} a, {T} b, {comp} s) -> {T} {{ return (a + b) * s - a; }}", f"{T} mixed expression", ["op"], small=True))
         # mixed component types promote
     for n in (2, 3, 4):
@@ -91,14 +97,18 @@ def operators(tier):
         for op in ("*", "/"):
             out.append(_t(f"export function f({M} a, float s) -> {M} {{ return a {op} s; }}", f"{M} {op} float", ["op", "matrix", "scale"], small=True))
             out.append(_t(f"export function f({M} a, int s) -> {M} {{ return a {op} s; }}", f"{M} {op} int", ["op", "matrix", "scale", "promote"], small=True))
+        for op in ("&&", "||"):
+            out.append(_t(f"export function f({M} a, {M} b) -> {M} {{ return a {op} b; }}", f"{M} {op} {M}", ["op", "matrix", "logic"], small=True))
         out.append(_t(f"export function f({M} a, {M} b) -> {M} {{ return a * b; }}", f"{M} * {M}", ["op", "matrix", "product"], small=True))
         out.append(_t(f"export function f({M} a, {M} b, {M} c) -> {M} {{ return a * b + c; }}", f"{M} * {M} + {M}", ["op", "matrix", "product"], small=True))
         out.append(_t(f"export function f({M} a, float s) -> {M} {{ {M} b = a * s; return b * a; }}", f"{M} scaled product", ["op", "matrix", "product"], small=True))
-    # accepted by typing (C09) but not lowerable / mis-lowered today: isolated members, nothing else in them
+    # matrix * vector and scalar * matrix (both were findings of C04/C05/C09 until repaired in /repo: cdfd45b, c2ea643)
     for n in (3, 4):
         M = f"float{n}x{n}"
-        out.append(_t(f"export function f({M} m, float{n} v) -> float{n} {{ return m * v; }}", f"{M} * float{n}", ["op", "matrix", "product", "trigger:*:matrix,vector"], small=True))
-        out.append(_t(f"export function f(float s, {M} m) -> {M} {{ return s * m; }}", f"float * {M}", ["op", "matrix", "scale", "trigger:*:scalar,matrix"], small=True))
+        out.append(_t(f"export function f({M} m, float{n} v) -> float{n} {{ return m * v; }}", f"{M} * float{n}", ["op", "matrix", "product"], small=True))
+        out.append(_t(f"export function f(float s, {M} m) -> {M} {{ return s * m; }}", f"float * {M}", ["op", "matrix", "scale"], small=True))
+        out.append(_t(f"export function f(int s, {M} m) -> {M} {{ return s * m; }}", f"int * {M}", ["op", "matrix", "scale", "promote"], small=True))
+        out.append(_t(f"export function f({M} m, float{n} v, float s) -> float{n} {{ return (s * m) * v + v; }}", f"(float * {M}) * float{n} + float{n}", ["op", "matrix", "product"], small=True))
     return out
 
 
